@@ -353,7 +353,7 @@ class TokenCategoryHierarchyMapper:
         """
         if parent == child:
             return True
-        return cls._is_child(parent, child, tree=cls.hierarchy)
+        return child in cls.nodes(parent)
 
     @classmethod
     def children(cls, parent: TokenCategory) -> Set[TokenCategory]:
